@@ -750,3 +750,97 @@ func init() {
 	reg("C06.named", func(c C06Case) error { _, err := checkC06Named(c); return err })
 	reg("C06.flip", func(c C06Case) error { _, err := checkC06Flip(c); return err })
 }
+
+// ---- other spellings of a refused name, and sandboxes that reach deep ------------------------------------
+
+type denyPolicy struct{}
+
+func (denyPolicy) IsFunctionAllowed(n string) bool { return n != "forbid_fn" }
+func (denyPolicy) IsFilterAllowed(n string) bool   { return n != "forbid" }
+func (denyPolicy) IsTagAllowed(string) bool        { return true }
+
+type C06SpellCase struct {
+	Occ string `json:"occ"` // content of the sandboxed template
+}
+
+// checkC06Spell: under a policy that refuses exactly "forbid_fn" / "forbid" (and allows every other
+// name), no spelling of a call inside the sandbox gets the refused function or filter invoked.
+func checkC06Spell(c C06SpellCase) error {
+	tm := map[string]string{"main": "A{% include 'inner' sandboxed %}B", "inner": c.Occ}
+	r, sp := c06Run(tm, denyPolicy{})
+	if r.Panic != "" {
+		return fmt.Errorf("panic: %s", r.Panic)
+	}
+	if n := spyHits(sp); n != 0 {
+		return fmt.Errorf("the policy refuses forbid_fn / forbid (exact names) but the sandboxed template %s got it invoked %d time(s); render: %v", q(c.Occ), n, r)
+	}
+	return nil
+}
+
+type C06DeepCase struct {
+	Depth int  `json:"depth"`
+	Fn    bool `json:"fn"`
+	With  bool `json:"with"`
+}
+
+// checkC06Deep: the refused name stands Depth plain includes below the sandboxed one.
+func checkC06Deep(c C06DeepCase) error {
+	occ := "{{ x|forbid }}"
+	if c.Fn {
+		occ = "{{ forbid_fn(x) }}"
+	}
+	with := ""
+	if c.With {
+		with = ", 'x': x"
+	}
+	tm := map[string]string{"main": "A{% include 'rec' with {'n': 0} sandboxed %}B",
+		"rec": "{% if n < max %}{% include 'rec' with {'n': n + 1" + with + "} %}{% else %}" + occ + "{% endif %}"}
+	e := newEngine(tm)
+	sp := NewSpies()
+	sp.Install(e)
+	e.EnableSandbox(c06Policy(C06Case{}, false))
+	ctx := map[string]interface{}{"x": "Val", "max": c.Depth}
+	r := render(e, "main", ctx)
+	if r.Panic != "" {
+		return fmt.Errorf("panic: %s", r.Panic)
+	}
+	if n := spyHits(sp); n != 0 || r.Err == "" {
+		return fmt.Errorf("a refused name %d includes below the sandboxed include: invoked %d time(s), render %v", c.Depth, n, trunc(fmt.Sprint(r)))
+	}
+	var sv *twig.SecurityViolation
+	if !errors.As(r.Error(), &sv) {
+		return fmt.Errorf("a refused name %d includes below the sandboxed include: the error is not a security violation: %s", c.Depth, firstLine(r.Err))
+	}
+	return nil
+}
+
+func TestC06Reach(t *testing.T) {
+	r := NewRec(t, "C06", "exhaustive: (a) under a policy that refuses exactly the names forbid_fn / forbid and allows all others, 24 spellings of a call (other letter case, blanks, method position, quoted dynamic forms) inside a sandboxed include: the refused callable is never invoked; (b) the refused name 0, 1, 10, 31, 32, 33, 63, 64, 65, 100 plain includes below the sandboxed include (a template including itself with a counter): security violation, not invoked; all cases non-trivial")
+	defer r.Flush()
+	r.SetExhaustive()
+	for _, occ := range []string{"{{ Forbid_fn(x) }}", "{{ FORBID_FN(x) }}", "{{ forbid_Fn(x) }}", "{{ x|Forbid }}", "{{ x|FORBID }}", "{{ x|forbiD|upper }}", "{% if Forbid_Fn(x) %}y{% endif %}", "{% for i in FORBID_FN(xs) %}{{ i }}{% endfor %}",
+		"{% set v = x|FORBID %}{{ v }}", "{% apply FORBID %}x{% endapply %}", "{% apply Forbid %}x{% endapply %}", "{{ mp.Forbid_fn(x) }}", "{{ mp.FORBID_FN(x) }}", "{{ x.forbid_FN(y2) }}", "{{ nul|default(x|Forbid) }}", "{{ max(1, FORBID_FN(y2)) }}",
+		"{{ forbid_fn (x) }}", "{{ x| forbid }}", "{{ x |forbid }}", "{{ x\n|\nforbid }}", "{{ forbid_fn\t(x) }}", "{% do Forbid_fn(x) %}", "{{ [x|FORBID]|join }}", "{{ {'k': FORBID_FN(x)}['k'] }}"} {
+		c := C06SpellCase{Occ: occ}
+		r.Case(occ, true, occ, "spelling")
+		if err := checkC06Spell(c); err != nil {
+			r.FailEnum(t, "C06.spell", c, err)
+		}
+	}
+	for _, d := range []int{0, 1, 10, 31, 32, 33, 63, 64, 65, 100} {
+		for _, fn := range []bool{false, true} {
+			for _, with := range []bool{false, true} {
+				c := C06DeepCase{Depth: d, Fn: fn, With: with}
+				r.Case(fmt.Sprint(c), true, c, "depth")
+				if err := checkC06Deep(c); err != nil {
+					r.FailEnumKey(t, "C06.deep", fmt.Sprint(fn, with), c, err)
+				}
+			}
+		}
+	}
+}
+
+func init() {
+	reg("C06.spell", checkC06Spell)
+	reg("C06.deep", checkC06Deep)
+}
